@@ -316,8 +316,10 @@ class ShareableThreadLock:
                 self._acquired_by[thread_id] -= 1
                 if not self._acquired_by[thread_id]:
                     del self._acquired_by[thread_id]  # NOTE: GC
-                    if not self._acquired_by:
-                        self._condition.notify_all()
+                    # NOTE: Also notify when other threads still hold the lock:
+                    # one of them could be waiting to upgrade its shared lock
+                    # and is then the only holder left.
+                    self._condition.notify_all()
             finally:
                 self._condition.release()
 
